@@ -523,9 +523,93 @@ func c13Determinism(c *Ctx, gd *Module) {
 		okSort = strings.Contains(describe(cs.Common().Args[0]), ".Data")
 	}
 	r.Check("C13.determinism", "partition/chart data is sorted before it is returned", gd.Pos(pt.Pos()), okSort, "sort.Slice(chart.Data, …)")
-	cs := gd.Func("cmd/worker", "compareSemver")
-	okTie := len(callsIn(cs, "godev/cmd/worker.compareLexically")) == 1 && len(callsIn(cs, "golang.org/x/mod/semver.Compare")) == 1
-	r.Check("C13.determinism", "compareSemver/ties broken lexically", gd.Pos(cs.Pos()), okTie, "semver.Compare then compareLexically: a total order on distinct strings")
+	// every comparator that can reach partition's sort is a total order on distinct strings:
+	// either the lexical comparison itself or a comparison that falls back to it on a tie
+	// (sort.Slice and sort.SliceStable alike leave the order of "equal" keys to the map range)
+	lex := gd.Func("cmd/worker", "compareLexically")
+	comparators := map[*ssa.Function]ssa.Instruction{}
+	note := func(v ssa.Value, at ssa.Instruction) {
+		switch f := strip(v).(type) {
+		case *ssa.Function:
+			comparators[f] = at
+		case *ssa.MakeClosure:
+			comparators[f.Fn.(*ssa.Function)] = at
+		}
+	}
+	for _, fn := range gd.srcFns {
+		if fn.Pkg == nil || fn.Pkg != pt.Pkg {
+			continue
+		}
+		for _, in := range instrsOf(fn) {
+			if st, ok := in.(*ssa.Store); ok {
+				if fa, ok := st.Addr.(*ssa.FieldAddr); ok {
+					if _, f, _ := fieldAddrName(fa); f == "compareBuckets" {
+						note(st.Val, st)
+					}
+				}
+			}
+			if phi, ok := in.(*ssa.Phi); ok && fn == pt {
+				if sig, ok := phi.Type().Underlying().(*types.Signature); ok && sig.Params().Len() == 2 {
+					for _, e := range phi.Edges {
+						note(e, phi)
+					}
+				}
+			}
+		}
+	}
+	r.Check("C13.determinism", "partition/comparators enumerated", gd.Pos(pt.Pos()), len(comparators) >= 2, fmt.Sprintf("%d comparator functions reach the sort", len(comparators)))
+	for f, at := range comparators {
+		okTotal := f == lex || len(callsIn(f, "godev/cmd/worker.compareLexically")) >= 1
+		if !okTotal && fname(f) == "go/version.Compare" {
+			// tabled: total on the keys it is given, provided the same options normalise every
+			// bucket with goMajorMinor ("goN.M" without leading zeros, or the one invalid key "")
+			if st, ok := at.(*ssa.Store); ok {
+				if fa, ok := st.Addr.(*ssa.FieldAddr); ok {
+					for _, u := range referrers(fa.X) {
+						fa2, ok := u.(*ssa.FieldAddr)
+						if !ok {
+							continue
+						}
+						if _, f2, _ := fieldAddrName(fa2); f2 != "normalizeBucket" {
+							continue
+						}
+						for _, u2 := range referrers(fa2) {
+							if st2, ok := u2.(*ssa.Store); ok {
+								var nf *ssa.Function
+								switch x := strip(st2.Val).(type) {
+								case *ssa.Function:
+									nf = x
+								case *ssa.MakeClosure:
+									nf = x.Fn.(*ssa.Function)
+								}
+								if nf != nil && len(callsIn(nf, "godev/cmd/worker.goMajorMinor")) >= 1 {
+									okTotal = true
+								}
+							}
+						}
+					}
+				}
+			}
+		}
+		r.Check("C13.determinism", "comparator "+fname(f)+" is a total order on distinct keys", gd.Pos(at.Pos()), okTotal,
+			"a comparator that can return 0 for distinct bucket names (semver.Compare, version.Compare) leaves their order to the map iteration; it must break ties with compareLexically")
+	}
+	// compareLexically itself: -1 / +1 by string order, 0 only for equal strings
+	{
+		ops := map[token.Token]bool{}
+		for _, in := range instrsOf(lex) {
+			if bo, ok := in.(*ssa.BinOp); ok && bo.X == ssa.Value(lex.Params[0]) && bo.Y == ssa.Value(lex.Params[1]) {
+				ops[bo.Op] = true
+			}
+		}
+		n := 0
+		for _, op := range []token.Token{token.LSS, token.GTR, token.EQL} {
+			if ops[op] {
+				n++
+			}
+		}
+		r.Check("C13.determinism", "compareLexically/orders by the strings themselves", gd.Pos(lex.Pos()), n >= 2, "two of x < y, x > y, x == y decide among -1, 0, +1; 0 only when equal")
+	}
 }
 
 // appendIsSortedLater: the result of the append is stored into a location that a later
